@@ -1293,6 +1293,11 @@ FIXED_CASES = [
      {"line": ["write_column", [["i", 5], ["i", 6], ["i", 300]], 0, None], "expect": "a cell the column type refuses"},
      {"line": ["write_column", [["i", 5], ["s", "x"], ["i", 7]], None, "a"], "expect": "a cell the column type refuses"},
      _acc(["write_column", [["i", 7], ["i", 8], ["i", 9]], -2, None])],
+    # a frame holding non-ASCII text: write_column rewrites whole rows read raw from the file (text as bytes);
+    # regression of 61e9077 repaired by fix 6332817
+    [["create_dict", [["s", "text"], ["k", "i8"]], [[["s", "\u00e9"], ["i", 1]], [["s", "\u4e2d\u6587"], ["i", 2]]]],
+     _acc(["write_column", [["i", 7], ["i", 8]], None, "k"]),
+     _acc(["write_column", [["s", "\u00fcber"], ["s", "a"]], 0, None]), _acc(["write_cell_pos", ["i", 9], [0, 1]])],
     # creation variant copy_from: same table, independent of the source
     [["create_dict", [["s", "text"], ["k", "u8"]], [[["s", "a"], ["i", 1]], [["s", "b"], ["i", 255]]]],
      _acc(["set_units", [None, "mV"]]), _acc(["copy_check"]),
